@@ -28,6 +28,7 @@ func init() {
 }
 
 func runC02(x *X) {
+	runC02Reentrant(x)
 	type fam struct {
 		name   string
 		depth  int
